@@ -13,8 +13,10 @@ from concurrent.futures import ThreadPoolExecutor
 
 VERIF = os.path.dirname(os.path.dirname(os.path.abspath(__file__)))
 WORK = os.path.join(VERIF, "work")
-REPLAYS = os.path.join(VERIF, "replays")
-EVIDENCE = os.path.join(VERIF, "evidence")
+# calibration runs against scratch trees (tools/calib.py) set VERIF_OUT so that they never overwrite the evidence of the real tree
+_OUT = os.environ.get("VERIF_OUT") or VERIF
+REPLAYS = os.path.join(_OUT, "replays")
+EVIDENCE = os.path.join(_OUT, "evidence")
 NCPU = min(16, os.cpu_count() or 4)
 
 SAN_ENV = {
